@@ -343,6 +343,7 @@ pub fn oracle_entries(f: &[u8]) -> Option<String> {
 }
 
 pub fn c01_bytes(f: &[u8], label: &str, with_zstd: bool) -> CaseOut {
+    crate::util::in_flight(&format!("file {}", hex(f)));
     let mut out = CaseOut::default();
     if f.len() <= 6000 && (f.len() > 3 || with_zstd) {
         if let Some(rq) = scan_request(f) {
@@ -508,6 +509,7 @@ pub fn c06_case(seed: u64, idx: u64) -> CaseOut {
     f.extend_from_slice(&w);
     f.extend_from_slice(&suf);
     let label = format!("{wl} pre={} suf={} S=({slabel})", pre.len(), suf.len());
+    crate::util::in_flight(&format!("file {}", hex(&f)));
     if f.len() <= 8000 {
         if let Some(rq) = scan_request(&f) {
             out.requests.push(rq);
@@ -763,6 +765,7 @@ pub fn c13_check(f: &[u8], c: &[u8], rs: &[Io], ws: &[Io], rfail: Option<usize>,
 pub fn c13_check_o(f: &[u8], c: &[u8], rs: &[Io], ws: &[Io], rfail: Option<usize>, wfail: Option<usize>, label: &str, entries: Option<&str>) -> CaseOut {
     let mut out = CaseOut::default();
     let replay = format!("recreate {} {} {} {} {}\nfile {}", hex(c), sched_str(rs), sched_str(ws), opt_str(rfail), opt_str(wfail), hex(f));
+    crate::util::in_flight(&replay);
     let fail = |sig: String, detail: String| Failure { kind: "oracle".into(), signature: sig, detail: format!("{detail} [{label}]"), replay: replay.clone() };
     let run = recreate_io(c, rs, ws, rfail, wfail);
     if let (Some(e), None, None) = (entries, rfail, wfail) {
@@ -944,6 +947,7 @@ pub fn c11_case(seed: u64, idx: u64) -> CaseOut {
     let f = fc.bytes;
     let label = fc.label;
     let replay = format!("file {}", hex(&f));
+    crate::util::in_flight(&replay);
     let fail = |sig: String, detail: String| Failure { kind: "oracle".into(), signature: sig, detail: format!("{detail} [{label}]"), replay: replay.clone() };
     let size = match guarded(|| expand_zlib_chunks(&f, 0)) {
         Run::Done(Ok(c)) => {
@@ -1053,6 +1057,7 @@ pub fn c12_case(seed: u64, idx: u64) -> CaseOut {
     let f = fc.bytes;
     let label = fc.label;
     let replay = format!("file {}", hex(&f));
+    crate::util::in_flight(&replay);
     let fail = |sig: String, detail: String| Failure { kind: "oracle".into(), signature: sig, detail: format!("{detail} [{label}]"), replay: replay.clone() };
     // what the library itself does with this file (C01 reports defects there)
     let lib_ok = matches!(guarded(|| expand_zlib_chunks(&f, 0)), Run::Done(Ok(ref c)) if matches!(recreate_plain(c), Run::Done(Ok(ref g)) if *g == f));
